@@ -2,6 +2,7 @@ package cluster
 
 import (
 	"encoding/json"
+	"os"
 
 	"github.com/weaveworks/mesh"
 
@@ -56,14 +57,24 @@ func c14request(v *verifrt.T, kb *keyban.Service, banned bool) bool {
 
 var c14clock int64
 
-// VerifC14: any sequence of ban / unban / use on broker A (durable state, 60 s read
-// cache in front of it), with the broadcast payloads delivered to a second durable
+// VerifC14: any sequence of ban / unban / use / restart on broker A (durable state in a
+// state directory, 60 s read cache in front of it), with the broadcast payloads delivered to a second durable
 // broker B that may have looked the key up before.
 func VerifC14(v *verifrt.T) {
 	crdt.Now = func() int64 { return c14clock }
 	c14clock = 1000
 	ga := &c14gossip{}
-	a := &Swarm{state: event.NewState(":memory:"), gossip: ga}
+	// A keeps its bans in a state directory (so that it can restart on it)
+	dir := "/c14-state-a"
+	if !v.Symbolic() {
+		d, err := os.MkdirTemp("", "c14")
+		if err != nil {
+			panic(err)
+		}
+		defer os.RemoveAll(d)
+		dir = d
+	}
+	a := &Swarm{state: event.NewState(dir), gossip: ga}
 	b := &Swarm{state: event.NewState(":memory:"), gossip: &c14gossip{}}
 	kb := keyban.New(nil, c14dec{}, a)
 	ban := event.Ban("the-key")
@@ -73,7 +84,11 @@ func VerifC14(v *verifrt.T) {
 	delivered := 0
 	for i := 0; i < n; i++ {
 		c14clock += 1 + int64(v.U8("dt", i)) // acknowledged operations are at least 1 ns apart
-		switch v.Choice(5, "op", i) {
+		switch v.Choice(6, "op", i) {
+		case 5: // A stops and starts again on the same state directory
+			a.state.Close()
+			a = &Swarm{state: event.NewState(dir), gossip: ga}
+			kb = keyban.New(nil, c14dec{}, a)
 		case 0: // ban
 			v.Assert(c14request(v, kb, true), "C14.ban-acknowledged")
 			if !banned {
